@@ -776,6 +776,9 @@ func (sc *serverConn) closeStream(st *stream, err error) {
 	delete(sc.streams, st.id)
 	if p := st.body; p != nil {
 		p.CloseWithError(err)
+		// Return any buffered unread bytes worth of conn-level flow control:
+		// nobody is going to read them. See golang.org/issue/16481
+		sc.sendWindowUpdate(nil, p.Discard())
 		p.Release(&fixBufferPool)
 	}
 	st.cw.Close() // signals Handler's CloseNotifier, unblocks writes, etc
